@@ -24,6 +24,7 @@ from concurrent.futures import ThreadPoolExecutor
 import vf
 import c13_zone
 import x13fe
+import x13zb
 
 MOD = "FailureCache"
 MCSPEC = "MC_FailureCache.tla"
@@ -320,6 +321,63 @@ def monitor_selftest(ctx, base_cfg, trace):
     ctx.cov["replay"]["monitor_selftest"] = {"corrupted_field": "retryIn", "flagged": r.violated}
 
 
+# --------------------------------------------------------------------------- overlapping Record / Reset (ResetRace.tla)
+def reset_race_model(ctx):
+    """ResetRace.tla: the atomics of record / ResetZone on one slot.  Exhaustive for 2 and 3 overlapping callers (Linearizable,
+    ResetWins, AdvanceOnce, Terminates); the negative twins (ResetZone gives up after one lost compare-and-delete) must refute
+    ResetWins and Linearizable.  Returns the outcomes of complete rounds per (initial slot, callers) for the binding."""
+    allowed = {}
+    for cfg in ("MC_RR2", "MC_RR3"):
+        r, nodes, edges, inits = ctx.tlc_graph(MOD, "MC_ResetRace.tla", cfg + ".cfg", timeout=600, workers=2, heap="2g")
+        for st in nodes.values():
+            pcs = st["pc"] if isinstance(st["pc"], list) else [st["pc"][k] for k in sorted(st["pc"], key=int)]
+            if any(x != "done" for x in pcs):
+                continue
+            ops = st["op"] if isinstance(st["op"], list) else [st["op"][k] for k in sorted(st["op"], key=int)]
+            rets = st["ret"] if isinstance(st["ret"], list) else [st["ret"][k] for k in sorted(st["ret"], key=int)]
+            recs = sorted(int(v) for o, v in zip(ops, rets) if o == "rec")
+            rsts = sorted(int(v) for o, v in zip(ops, rets) if o == "reset")
+            fmt = lambda xs: "[" + " ".join(str(x) for x in xs) + "]"
+            outcome = "final=%d/%s;rec=%s;reset=%s" % (int(st["slot"]["streak"]), st["slot"]["kind"], fmt(recs), fmt(rsts))
+            key = "%s|%s" % (st["init0"]["kind"], ",".join(sorted(ops)))
+            allowed.setdefault(key, set()).add(outcome)
+    for cfg, want in (("Neg_RRNoRetry", "ResetWins"), ("Neg_RRNoRetryLin", "Linearizable")):
+        r = ctx.tlc(MOD, "MC_ResetRace.tla", cfg + ".cfg", workers=1, timeout=300, heap="2g", must_pass=False, count=False,
+                    tag="mutant-must-fail")
+        if r.violated != want:
+            raise vf.MachineryError("%s: the model mutant must refute %s, TLC says %r (vacuous invariant?)" % (cfg, want, r.violated))
+    if len(allowed) < 12:
+        raise vf.MachineryError("ResetRace.tla: outcomes for only %d (slot, callers) combinations" % len(allowed))
+    return {k: sorted(v) for k, v in allowed.items()}
+
+
+RESET_RACE = {"maxRounds": 60000, "budgetMs": 6000, "initStreak": 3}
+
+
+def reset_race(ctx, allowed, inp=None):
+    """code -> spec: free-running rounds of overlapping Record / Reset calls on the real FailureCache (swept skew), every
+    round's outcome judged against the model's (ResetWins is the verdict, anything else outside the set is drift)."""
+    if inp is None:
+        inp = dict(RESET_RACE)
+        if ctx.tier == "thorough":
+            inp.update({"budgetMs": 20000, "maxRounds": 400000})
+    inp = dict(inp)
+    inp["allowed"] = allowed
+    res = ctx.go_driver("./c13", "TestResetRace", inp, name="reset_race", timeout=300)
+    ctx.take_driver_result(res, "[overlapping Record / Reset] ")
+    cnt = res.get("counters", {})
+    ctx.cov["replay"]["reset_race"] = {"rounds": cnt.get("rounds", 0), "drift": res["drift"], "drift_notes": res.get("drift_notes", []),
+                                        "counters": cnt, "skipped": res.get("skipped", []),
+                                        "model_outcomes": {k: len(v) for k, v in allowed.items()}}
+    ctx.cov["traces_validated_against_impl"] += cnt.get("rounds", 0)
+    if res.get("skipped"):
+        raise vf.MachineryError("reset race driver: %s" % res["skipped"][:3])
+    if not res.get("violations") and (cnt.get("rounds", 0) < 2000 or not cnt.get("rounds_zone") or not cnt.get("rounds_question")):
+        raise vf.MachineryError("reset race driver is vacuous: %s" % cnt)
+    ctx.log("overlapping Record / Reset: %d rounds (zone %d, question %d), outcomes outside ResetRace.tla: %d" % (
+        cnt.get("rounds", 0), cnt.get("rounds_zone", 0), cnt.get("rounds_question", 0), res["drift"]))
+
+
 # --------------------------------------------------------------------------- drivers
 def run_driver(ctx, test, name, cfgname, paths, shapes=1, random=0, extra=None, timeout=900, what=""):
     c = read_cfg(cfgname)
@@ -392,8 +450,14 @@ def run_replay(ctx, path):
     driver = rep.get("driver")
     if driver in ("TestReplay", "TestStorm"):       # the FailEcs tier (checks/x13fe.py)
         return x13fe.replay_file(ctx, path)
+    if driver == x13zb.TEST:                         # the zone / breaker history tier (checks/x13zb.py)
+        return x13zb.replay_file(ctx, path)
     if driver == "TestZoneFailure":
         return c13_zone.replay_zone(ctx, rep)
+    if driver == "TestResetRace":                    # a race cannot be replayed step by step: the same stress again
+        ctx.spec_dir(MOD)
+        reset_race(ctx, reset_race_model(ctx), rep.get("input"))
+        return
     if driver == "TestResolverShed":
         res = ctx.go_driver("./c13", driver, {"cfg": driver_cfg(read_cfg("Sim_Req"))}, name="replay", timeout=300)
         ctx.take_driver_result(res, "[replay] ")
@@ -454,6 +518,7 @@ def run(ctx, replay):
     if thorough:
         sims.update({"Sim_Store": (200, 40), "Sim_Default": (300, 60), "Sim_Odd": (300, 40), "Sim_ReqOdd": (200, 40)})
     sfut = {c: POOL.submit(sim_paths, ctx, c, num, depth) for c, (num, depth) in sims.items()}
+    rrf = POOL.submit(reset_race_model, ctx)
 
     # ---- zone-failure pipeline tier (ZoneFail.tla + scripted authorities against the full pipeline): its TLC runs
     # and its driver go on beside everything below; the verdict is folded in at the end
@@ -527,6 +592,10 @@ def run(ctx, replay):
     if res.get("skipped"):
         raise vf.MachineryError("resolver shed probe: %s" % res["skipped"][:2])
 
+    # "a useful answer resets the backoff" when one client's failing probe overlaps another client's useful answer:
+    # RecordZone / ResetZone as the code's atomics (ResetRace.tla), free-running rounds on the real FailureCache
+    reset_race(ctx, rrf.result())
+
     # ---- phase 3: code -> spec, the recorded executions under the property monitor (parallel)
     tf = []
     for name, cfgname, trace, what in traces:
@@ -541,3 +610,7 @@ def run(ctx, replay):
     # shared audience on every path (lookup, record, retry key), the follower re-check under the client's own audience,
     # one probe per (question, audience) after expiry, request-local endings neither recorded nor served to followers
     x13fe.run_tier(ctx)
+    # the state a HISTORY of request trees shares (ZoneBrk.tla): the per-server circuit breaker and the zone failure -- only
+    # upstream failures count, request-local endings (client deadline, hang-up, a faster peer, the tree's own budget) never
+    # become shared state, a zone failure only when every server of the zone failed
+    x13zb.run_tier(ctx)
